@@ -61,3 +61,44 @@ Example C11_final_instance : match encode_fit (mkecfg false false 0 proto_V2 fal
   | Ok r => bytes_okb (er_bytes r) = true /\ (16 <? len (er_bytes r)) = true /\ integrity_b (er_bytes r) = (1, true)
   | _ => False end.
 Proof. vm_compute. auto. Qed.
+
+(* ---- a destination that is only appended to (a plain io.Writer), ANY fault plan (which operation fails, how many bytes it
+   still takes), any write-buffer size, any chain, any earlier content: after the Encode calls -- successful, failed half way
+   through a Write, or with bytes still held back by bufio -- the destination holds the earlier content followed by a PREFIX
+   of the concatenated sequences: nothing is ever out of order or duplicated *)
+From Fit Require Import Proofs.WriterProofs Proofs.PlainCrash.
+Theorem C11_plain_destination_holds_a_prefix : forall size pre f (ps : list (eparts * N)) errs w',
+  encode_chain (wst_new KPlain size pre f) ps [] = (errs, w') ->
+  is_prefix (d_bytes (w_dest w')) (pre ++ concat (map (fun x => sequence_bytes (fst x)) ps)).
+Proof. exact plain_destination_holds_a_prefix. Qed.
+Print Assumptions C11_plain_destination_holds_a_prefix.
+
+(* ... and the integrity rules accept a prefix of a chain of encoder outputs only when it is exactly the first j >= 1
+   completed sequences: incomplete output is never a valid file, whatever the failure point (the crash clause for plain
+   destinations in full; good_output = an output of encode_fit with a 14-byte header, of a size a 32-bit data size can
+   describe, C11_final_instance shows it is satisfiable) *)
+Theorem C11_plain_crash_accepted_only_at_boundary : forall c size flt fs rs (ps : list (eparts * N)) errs w' n,
+  Forall2 (good_output c) fs rs ->
+  Forall2 (fun f x => encode_parts c f = Ok (fst x)) fs ps ->
+  encode_chain (wst_new KPlain size [] flt) ps [] = (errs, w') ->
+  is_prefix (d_bytes (w_dest w')) (concat (map er_bytes rs)) /\
+  (integrity_b (d_bytes (w_dest w')) = (n, true) ->
+     exists j, n = N.of_nat j /\ (0 < j <= length rs)%nat /\ d_bytes (w_dest w') = concat (map er_bytes (firstn j rs))).
+Proof. exact plain_crash_accepted_only_at_boundary. Qed.
+Print Assumptions C11_plain_crash_accepted_only_at_boundary.
+
+(* the rules on any prefix of any chain of valid sequences *)
+Theorem C11_prefix_of_chain_accepted_only_at_boundary : forall seqs, Forall (fun s => integrity_sequence s = Some [] /\ s <> []) seqs ->
+  forall x n, is_prefix x (concat seqs) -> integrity_b x = (n, true) ->
+  exists j, n = N.of_nat j /\ (j <= length seqs)%nat /\ x = concat (firstn j seqs) /\ n <> 0.
+Proof. intros seqs HF x n Hp Hv. exact (chain_prefix_verdict seqs HF x _ 0 n Hp (Nat.lt_succ_diag_r _) Hv). Qed.
+Print Assumptions C11_prefix_of_chain_accepted_only_at_boundary.
+
+(* non-vacuity: two files through a 7-byte buffer into a plain destination whose 4th operation fails after 2 bytes: the
+   first call succeeds or the failure is reported, the content is a proper prefix and the rules reject it *)
+Example C11_plain_instance : match encode_parts (mkecfg false false 0 proto_V2 false) c11_file with
+  | Ok p => let a := Writer.encode_chain (wst_new KPlain 7 [] (Some (mkfault 3 2))) [(p, 0); (p, 0)] [] in
+            In true (fst a) /\ (len (d_bytes (w_dest (snd a))) <? 2 * len (sequence_bytes p)) = true /\
+            (0 <? len (d_bytes (w_dest (snd a)))) = true /\ snd (integrity_b (d_bytes (w_dest (snd a)))) = false
+  | _ => False end.
+Proof. vm_compute. auto. Qed.
